@@ -218,6 +218,16 @@ struct df_option
 	template <class P> std::size_t size(P const&) const { return sizeof(v); }
 };
 
+// the Linux spelling of the same switch: IP_MTU_DISCOVER with IP_PMTUDISC_DO / IP_PMTUDISC_DONT
+struct pmtu_option
+{
+	int v;
+	template <class P> int level(P const&) const { return 0; }
+	template <class P> int name(P const&) const { return IP_MTU_DISCOVER; }
+	template <class P> void const* data(P const&) const { return &v; }
+	template <class P> std::size_t size(P const&) const { return sizeof(v); }
+};
+
 struct runner
 {
 	using timer = asio::high_resolution_timer;
@@ -484,6 +494,7 @@ struct runner
 			});
 		}
 		else if (c == "udp_df") { boost::system::error_code ec; udpsocks.at(arg(1))->set_option(df_option{int(arg(2))}, ec); }
+		else if (c == "udp_pmtu") { boost::system::error_code ec; udpsocks.at(arg(1))->set_option(pmtu_option{arg(2) ? IP_PMTUDISC_DO : IP_PMTUDISC_DONT}, ec); }
 		else if (c == "udp_lep")
 		{
 			boost::system::error_code ec;
